@@ -65,7 +65,7 @@ CHECKS = {
    "explicit-state exploration of operation histories with a bisimulation oracle"),
  "C16": ("E6 + conn-cost hook", "4.C16",
    "For every trained model of the C14 family and every injected weight vector, the emitted bigram files are compiled with the raw and the dual connector and matrix.def with the matrix connector; every id pair incl. row/column 0 must agree within K+1 and the dimensions must be equal; the compiled raw/dual dictionary is then id-mapped (rotation on both sides) and must still agree with the equally permuted matrix.def; configurations with user lexicons are also run as (train without them, export, read the user lexicons, write_bigram_details before write_dictionary). A discrepancy is attributed to the recorded finding K3 only if the real table equals the string-level sum in which '*' is an ordinary feature and the sum over the model's true feature tuples is within K+1 of matrix.def.",
-   "K3 (literal '*' feature), K8 (feature expanding to the empty string), K4, K7 and K6 (rucrf panic on an empty bigram table) are recorded findings",
+   "K3 (literal '*' feature), K8 (feature expanding to the empty string), K9 (feature containing '/'), K4, K7 and K6 (rucrf panic on an empty bigram table) are recorded findings",
    "bounded exhaustive enumeration of training configurations with a cross-compilation oracle"),
  "C17": ("product enumeration + rewrite hook", "4.C17",
    "All ordered rule lists of <= 3/4 rules with patterns of 1-2 (thorough 1-3) columns over {*,a,b,(a|b)} x all feature lists of length 0-3 over {a,b,c} are applied by the real rewriter (rule-list hook and rewrite.def text with all section assignments) and compared with 'first rule in list order that matches position-wise as a prefix'.",
